@@ -1463,7 +1463,7 @@ class Interp:
         if isinstance(node, ast.Lambda):
             fd = ast.FunctionDef(name="<lambda>", args=node.args, body=[ast.Return(value=node.body)], decorator_list=[], lineno=node.lineno)
             return self.make_func(fd, frame.module, frame, frame.cls)
-        if isinstance(node, (ast.ListComp, ast.GeneratorExp)):
+        if isinstance(node, (ast.ListComp, ast.GeneratorExp, ast.DictComp)):
             return self.eval_comp(node, frame)
         if isinstance(node, ast.Starred):
             raise Unsupported("starred expression")
@@ -1484,7 +1484,12 @@ class Interp:
                     raise Unsupported("comprehension filter depends on data")
                 ok = ok and t
             if ok:
-                out.append(self.eval(node.elt, fr))
+                if isinstance(node, ast.DictComp):
+                    out.append((_hashable(self.eval(node.key, fr)), self.eval(node.value, fr)))
+                else:
+                    out.append(self.eval(node.elt, fr))
+        if isinstance(node, ast.DictComp):
+            return dict(out)
         return out if isinstance(node, ast.ListComp) else PyIter(iter(out))
 
     def compare(self, op, a, b):
@@ -1872,7 +1877,26 @@ def _b_abs(it, a, k):
 
 
 def _b_isinstance(it, a, k):
-    raise Unsupported("isinstance")
+    v, cl = a
+    cls = list(cl) if isinstance(cl, (tuple, list)) else [cl]
+    res = False
+    for c in cls:
+        nm = c.name if isinstance(c, (Builtin, Opaque)) else None
+        if nm in ("numpy.ndarray", "ndarray"):
+            res = res or isinstance(v, NDArr)
+        elif nm == "list":
+            res = res or isinstance(v, list)
+        elif nm == "tuple":
+            res = res or isinstance(v, tuple)
+        elif nm == "dict":
+            res = res or isinstance(v, dict)
+        elif nm == "str":
+            res = res or isinstance(v, str)
+        elif nm == "int" and not isinstance(v, Rat):
+            res = res or (isinstance(v, int) and not isinstance(v, bool))
+        else:
+            raise Unsupported(f"isinstance(..., {nm})")
+    return res
 
 
 def _b_int(it, a, k):
@@ -1894,6 +1918,7 @@ PY_BUILTINS = {
     "list": Builtin("list", lambda it, a, k: list(it.iterate(a[0])) if a else []),
     "tuple": Builtin("tuple", lambda it, a, k: tuple(it.iterate(a[0])) if a else ()),
     "dict": Builtin("dict", lambda it, a, k: dict(a[0]) if a else dict(k)),
+    "str": Builtin("str", lambda it, a, k: "<str>"),
     "bool": Builtin("bool", lambda it, a, k: it.truth(a[0]) if a else False),
     "reversed": Builtin("reversed", lambda it, a, k: list(it.iterate(a[0]))[::-1]),
     "print": Builtin("print", lambda it, a, k: None),
